@@ -82,6 +82,7 @@ pub fn enga_profile(property: &str, tier: Tier) -> Option<Profile> {
                 (AddObj, 4), (Touch, 3), (CycleCert, 10), (AddChild, 6),
             ]);
             p.gen.chain = true;
+            p.gen.same_names_pct = 35;
             p.gen.max_depth = 6;
             p.gen.max_cas = 9;
             p.gen.max_tals = 1;
@@ -133,9 +134,9 @@ pub fn enga_profile(property: &str, tier: Tier) -> Option<Profile> {
             ]);
             p.gen.dubious_pct = 35;
             p.gen.shared_repos = false;
-            p.allow_dubious_pct = 35;
+            p.allow_dubious_pct = 45;
             p.big_jumps = false;
-            p.steps = 3;
+            p.steps = 4;
         }
         "hist-aspa" => {
             only(&mut p, &[
